@@ -313,7 +313,9 @@ def _render(q):
             e = ast.parse(s_.split(STALE)[0], mode='eval').body
         except SyntaxError:
             continue
-        conds.append((R(len(evs)).visit(e), pol))
+        # a test is spelled as of the moment it was made (snapshots older than the test still show as old<t>(..))
+        t_ = q.ctime.get(s_.split(STALE)[0], q.ctime.get(s_, None))
+        conds.append((R(before(t_) if t_ is not None else len(evs)).visit(e), pol))
     _render.ctext = ctext
     return conds, eff, ret
 
